@@ -69,6 +69,13 @@ Definition chk_links (c : c6_case) : bool :=
     && forallb (fun u => is_dart_builtin u || Nat.eqb (count_str u (visible_defs c f)) 1) (df_uses f))
   (c6_files c).
 
+Fixpoint list_eqb_opt (a b : list (option Z)) : bool :=
+  match a, b with
+  | [], [] => true
+  | Some x :: a', Some y :: b' => Z.eqb x y && list_eqb_opt a' b'
+  | _, _ => false
+  end.
+
 (** the wire conversion of non positional enums is the identity on the listed values *)
 Definition chk_enum_wire (c : c6_case) : bool :=
   forallb (fun e => match de_values e with
@@ -76,7 +83,15 @@ Definition chk_enum_wire (c : c6_case) : bool :=
                                                    | Some i => match to_value vs i with Some v' => String.eqb v v' | None => false end
                                                    | None => false end) vs
                                  && Nat.eqb (List.length vs) (List.length (de_members e))
-                    | None => de_iota e end) (c6_denums c).
+                    | None =>
+                        (* positional conversion (values[i] / index): sound only when the listed members have the Go values 0, 1, 2, ... in order *)
+                        de_iota e
+                        && match filter (fun m => String.eqb (title (local_name_of (c6_prog c) (en_id m))) (de_name e)) (c6_enums c) with
+                           | [m] => let vals := map (fun x => int64_of (em_val x)) (filter em_exported (en_members m)) in
+                                    list_eqb_opt vals (map Some (zseq 0 (List.length vals)))
+                           | _ => true
+                           end
+                    end) (c6_denums c).
 
 (** the Kind strings a Dart union accepts and writes are the Go names of its members (what the generated
     Go wrappers write, C02), in the same order as the dispatch *)
